@@ -19,7 +19,7 @@ P = {
     "C02": dict(
         technique="MIR value-flow slices from response fields to their sources; resolved-callee identity",
         text="Decides provenance clauses of registration: clientData type/challenge/origin/hash sources (the origin rendered as the URL's ASCII serialisation), both authenticator-data copies from one value reaching the attestation object unaltered, id/rawId from one "
-             "credential id, public vs private COSE key routing, rpIdHash source, first-match algorithm choice, exactly one save. Not crypto validity.",
+             "credential id, public vs private COSE key routing, rpIdHash source, first-match algorithm choice, exactly one save, and that the shipped stores write exactly the record they are given under its own id (shared clause C07 R8). Not crypto validity.",
         ref="DESIGN.md §3 C02"),
     "C03": dict(
         technique="MIR byte-layout extraction of the signature target + value-flow slices + decision table of the error mapping",
@@ -29,7 +29,7 @@ P = {
     "C04": dict(
         technique="CFG must-pass (consent dominates effects) + decision-table extraction of the consent helper",
         text="Decides that every store call, key generation, signature and Ok return of both ceremonies is cut by the success edge of the user check, the complete decision "
-             "table of the consent helper (requested/capability/reported -> Err/flags), flag provenance, and shown-credential = signing credential.",
+             "table of the consent helper (requested/capability/reported -> Err/flags), flag provenance, shown-credential = signing credential, and that a wire request whose options omit up asks for presence (shared clause C13 R4).",
         ref="DESIGN.md §3 C04"),
     "C05": dict(
         technique="MIR value-flow of lookup arguments + per-impl store-contract rule (parameter must be used in a comparison)",
@@ -44,7 +44,7 @@ P = {
     "C07": dict(
         technique="CFG path rules on the pre-borrowck coroutine MIR (await/yield/cancellation edges), error-discipline rule",
         text="Decides: save is the last fallible/suspending step of registration; store results are propagated (never dropped or turned into Ok); mutation sites are exactly "
-             "save/update; cancellation edges lie before the save or inside it; assertion Ok is cut by update success when a counter exists.",
+             "save/update; cancellation edges lie before the save or inside it; assertion Ok is cut by update success when a counter exists; the shipped leaf stores write the given record under its own id through one accepted writer and touch the container in no other way.",
         ref="DESIGN.md §3 C07"),
     "C08": dict(
         technique="MIR arithmetic rule (no wrapping/panicking op on counter-derived operands) + value-flow (reported = stored)",
@@ -54,7 +54,7 @@ P = {
     "C09": dict(
         technique="byte-layout extraction (salt), resolved generic args (Hmac<Sha256>), edge-sensitive value-flow (uv-gated key selection)",
         text="Decides the PRF salt layout and constants, HMAC instantiation and key/data roles, secret selection by the uv edge, uv argument provenance at both ceremonies, "
-             "per-credential salt selection, 'enabled' consistency and that client-side validation cuts the authenticator call.",
+             "per-credential salt selection, 'enabled' consistency, that client-side validation cuts the authenticator call, and that the hashing flag is handed on unchanged from the entry conversions to every converter call (closures and helpers included).",
         ref="DESIGN.md §3 C09"),
     "C10": dict(
         technique="translation validation of the generated table (const-evaluated by rustc) against public_suffix_list.dat + table well-formedness + reader bit-layout walk",
@@ -63,17 +63,17 @@ P = {
         ref="DESIGN.md §3 C10", category="translation_validation"),
     "C11": dict(
         technique="decision-table extraction from MIR switch trees + table algebra over the full finite product",
-        text="Decides map_rk, is_passkey_discoverable, get_info.rk tables, rk refusal, stored user handle condition, credProps value, and assertion user handle presence; the "
+        text="Decides map_rk, is_passkey_discoverable, get_info.rk tables, rk refusal, stored user handle condition, credProps value, assertion user handle presence, lock wrappers forwarding get_info to the wrapped store, the user handle surviving the counter write-back (shared clause C07 R7); the "
              "composition is evaluated over the complete finite product from the extracted tables.",
         ref="DESIGN.md §3 C11"),
     "C12": dict(
         technique="byte-layout extraction of writer, reader constant agreement, flag-bit constants (const-evaluated)",
         text="Decides writer layout and widths/endianness, reader split constants agree with the writer, flag bit values and rejecting from_bits, AT/ED set exactly with their sections, "
-             "u16 length refusal. Not round-trip equality for all values.",
+             "u16 length refusal, and that no outcome of the attested-data reader depends on a test of the decoded length (the reader accepts every length the writer emits). Not round-trip equality for all values.",
         ref="DESIGN.md §3 C12"),
     "C13": dict(
         technique="discriminant tables of the macro-generated Ident enums (compiler facts) vs CTAP numbering; status-code partition by set algebra",
-        text="Decides member numbering/order, optional-member omission and defaults, duplicate/missing-key handling in the generated visitor, Options defaults, and that the 256 "
+        text="Decides member numbering/order, optional-member omission and defaults, duplicate/missing-key handling in the generated visitor, Options defaults on both sides (a member the encoder leaves out is left out only at the value the decoder substitutes), and that the 256 "
              "status bytes partition into exactly one class each and convert back; client mapping of NoCredentials.",
         ref="DESIGN.md §3 C13"),
     "C14": dict(
@@ -94,7 +94,7 @@ P = {
     "C17": dict(
         technique="byte-layout extraction of signature bases and response encoders vs the U2F raw-message tables; writer/reader agreement of the stored rp_id",
         text="Decides registration/authentication signature base layouts, stored credential fields, same conversion chain for rp_id at store and lookup, response encodings, "
-             "status words and request framing constants. Not signature validity.",
+             "status words and request framing constants, and that a re-registration replaces the stored record (shared clause C07 R8). Not signature validity.",
         ref="DESIGN.md §3 C17"),
     "C18": dict(
         technique="resolved call graph (Instance::try_resolve): forwarding target, self-cycle, transparency slices, sealedness",
